@@ -7,6 +7,7 @@ CaseSeq ==
   LET raw == SetToSeq(AttrCases \cup TreeCases) IN
   [i \in 1..Len(raw) |->
      [case |-> "C13-" \o ToString(i), prop |-> "C13", opts |-> raw[i].opts, kind |-> raw[i].kind,
+      slotflags |-> IF raw[i].kind = "tree" THEN PredictSlotFlags(raw[i].elem, raw[i].opts) ELSE <<>>,
       fold |-> IF raw[i].kind = "attrs" /\ raw[i].elem.attrs # <<>> THEN <<Predict(raw[i].elem, raw[i].opts)>> ELSE <<>>,
       items |-> << [k |-> "export_jsx", name |-> "s1", ctx |-> "module", elem |-> raw[i].elem] >>]]
 
